@@ -439,7 +439,7 @@ func genC20(tier string) []Scenario {
 func rerunWaitScenario(form string, w time.Duration) Scenario {
 	var label string
 	body := func() {
-		firstEnd := []string{"all attempts failed", "cancelled during the wait", "succeeded at once"}[core.Choose(3)]
+		firstEnd := []string{"all attempts failed", "cancelled during the wait", "succeeded at once", "cancelled at the instant the wait expires"}[core.Choose(4)]
 		label = form + " after a run that " + firstEnd
 		var starts, ends []int64
 		mode := "fail"
@@ -480,8 +480,12 @@ func rerunWaitScenario(form string, w time.Duration) Scenario {
 			mode = "fail"
 		default:
 			ctx, cancel := core.WithCancel(context.Background())
+			d := w / 2 // the run is inside its first retry wait by then
+			if firstEnd == "cancelled at the instant the wait expires" {
+				d = w
+			}
 			core.Go("harness:canceller", func() {
-				core.Sleep(w / 2) // the run is inside its first retry wait by then
+				core.Sleep(d)
 				cancel()
 			})
 			flyt.Run(ctx, node, flyt.NewSharedStore())
@@ -506,7 +510,7 @@ func rerunWaitScenario(form string, w time.Duration) Scenario {
 			core.Problem("%s: the second run returned %v after its last attempt ended", label, time.Duration(t1-ends[1]))
 		}
 	}
-	return Scenario{Name: fmt.Sprintf("wait rerun-of-the-same-node form=%s w=%v", form, w), Bound: 1, Body: body, Check: stdCheck(func() string { return label })}
+	return Scenario{Name: fmt.Sprintf("wait rerun-of-the-same-node form=%s w=%v", form, w), Bound: 2, Body: body, Check: stdCheck(func() string { return label })}
 }
 
 // nestedRunWaitScenario: an outer node (budget 2, no wait of its own) whose exec drives an inner
